@@ -28,16 +28,32 @@ def execute(P, cases, ctx, tag="main", run_model=True):
     impl, model, errs = {}, {}, []
     for gi, (k, cs) in enumerate(sorted(groups.items())):
         env, drv = json.loads(k)
-        if hasattr(P, "impl_runner"):
-            # the implementation side is orchestrated by the property module (crash injection)
-            i, e = P.impl_runner(cs, ctx, os.path.join(rundir, "g%d" % gi))
+        ir = None
+        if hasattr(P, "impl_runner_for"):
+            ir = P.impl_runner_for(drv)
+        elif hasattr(P, "impl_runner"):
+            ir = P.impl_runner
+        if ir is not None:
+            # the implementation side is orchestrated by the property module (crash injection, real processes)
+            i, e = ir(cs, ctx, os.path.join(rundir, "g%d" % gi))
             errs += e
-            aug = [P.augment(c, i.get(c[0])) for c in cs]
+            aug = [P.augment(c, i.get(c[0])) for c in cs] if hasattr(P, "augment") else cs
+            mdrv = P.model_driver_of(drv) if hasattr(P, "model_driver_of") else drv
             m = {}
             if run_model:
-                _, m, e2 = run_sharded(drv, aug, ctx.drv, os.path.join(rundir, "m%d" % gi),
+                _, m, e2 = run_sharded(mdrv, aug, ctx.drv, os.path.join(rundir, "m%d" % gi),
                                        run_model=True, run_impl=False, shards=getattr(P, "SHARDS", None))
                 errs += e2
+                if hasattr(P, "reduce_model"):
+                    byid = {c[0]: c for c in cs}
+                    for k in m:
+                        if k in byid:
+                            m[k]["obs"] = P.reduce_model(byid[k], drv, m[k]["obs"])
+                            if hasattr(P, "reconcile") and k in i:
+                                # nondeterminism of the implementation that no hook controls (real processes): the module
+                                # says which of the model's alternatives the run took
+                                i[k]["obs"], notes = P.reconcile(byid[k], drv, i[k]["obs"], m[k]["obs"])
+                                i[k]["aux"] = list(i[k].get("aux", [])) + notes
         elif hasattr(P, "augment"):
             # two phases: the implementation runs first; what it observed about its own
             # nondeterminism (HashMap / directory order) is handed to the model as an oracle
